@@ -4,23 +4,57 @@ SHELL := /bin/bash
 COQ_TIMEOUT ?= 1800
 J ?= 12
 
-.PHONY: setup all coq extract driver clean prectable coqchk static
+.PHONY: setup all gen coq extract driver clean prectable offlinegen offlinegen-check offlinegen-mutants coqchk static
 
+# `make all` never stops at the first failure: a source file of nickovic/rtamt that a translator refuses, or a proof that no longer
+# checks against the regenerated text, must break the obligations of the properties that depend on it and of no other property.
+# Every step records its outcome in build/status/<step> ("ok" or the tail of its log); `all` exits non-zero when any step failed.
+# harness/common.py reads these files: a property is reported as broken only if its own Props file (with everything it imports)
+# does not compile or a generator it depends on failed.
 setup: all
-all: coq
-	$(MAKE) driver
+all:
+	@mkdir -p build/status
+	@$(MAKE) -s gen
+	@($(MAKE) coq > build/status/coq.log 2>&1 && echo ok > build/status/coq) || (tail -40 build/status/coq.log > build/status/coq; true)
+	@($(MAKE) driver > build/status/driver.log 2>&1 && echo ok > build/status/driver) || (tail -40 build/status/driver.log > build/status/driver; true)
+	@grep -v "^COQC\|^COQDEP\|Closed under the global context\|^make" build/status/coq.log | tail -5; true
+	@for f in prectable offlinegen coq driver; do if [ "`head -c 2 build/status/$$f`" != "ok" ]; then echo "make all: step $$f failed (build/status/$$f)"; fail=1; fi; done; test -z "$$fail"
 
 coq/Makefile.coq: coq/_CoqProject
 	cd coq && coq_makefile -f _CoqProject -o Makefile.coq
 
-# the precedence table of the parser model is regenerated from rtamt's generated ANTLR parser on every build
 REPO ?= /repo
+# generated parts of the model, rewritten from the source tree on every build; a generator that fails leaves the checked-in file alone
+gen:
+	@mkdir -p build/status
+	@($(MAKE) -s prectable > build/status/prectable.log 2>&1 && echo ok > build/status/prectable) || (tail -20 build/status/prectable.log > build/status/prectable; true)
+	@($(MAKE) -s offlinegen > build/status/offlinegen.log 2>&1 && echo ok > build/status/offlinegen) || (tail -20 build/status/offlinegen.log > build/status/offlinegen; true)
+
+# the precedence table of the parser model is regenerated from rtamt's generated ANTLR parser on every build
 prectable:
-	@python3 tools/gen_prectable.py $(REPO)/rtamt/antlr/parser/stl/StlParser.py build/PrecTable.v.new 2>/dev/null || (mkdir -p build && python3 tools/gen_prectable.py $(REPO)/rtamt/antlr/parser/stl/StlParser.py build/PrecTable.v.new)
+	@mkdir -p build
+	python3 tools/gen_prectable.py $(REPO)/rtamt/antlr/parser/stl/StlParser.py build/PrecTable.v.new
 	@cmp -s build/PrecTable.v.new coq/theories/PrecTable.v || cp build/PrecTable.v.new coq/theories/PrecTable.v
 
-coq: prectable coq/Makefile.coq
-	cd coq && timeout $(COQ_TIMEOUT) $(MAKE) -f Makefile.coq -j$(J)
+# the offline visitor is re-translated from the Python source on every build (fail-closed: an unsupported construct, a changed signature
+# or method set stops the translator: C01 is then reported as no longer shown); OfflineGenCorrect.v re-proves, against the new text, that every
+# generated method equals the hand model of Offline.v
+offlinegen:
+	@mkdir -p build
+	python3 tools/py2coq_offline.py $(REPO) build/OfflineGen.v.new
+	@cmp -s build/OfflineGen.v.new coq/theories/OfflineGen.v || cp build/OfflineGen.v.new coq/theories/OfflineGen.v
+
+# method-level differential check of the generated definitions against the Python methods (not part of `all`: ~2 min of vm_compute input)
+offlinegen-check: coq
+	PYTHONDONTWRITEBYTECODE=1 PYTHONPATH=$(REPO) /venv/bin/python harness/offlinegen_check.py build/OfflineGenCases.v
+	cd coq && timeout 1800 coqc -Q theories RV ../build/OfflineGenCases.v
+
+# 6 semantic mutations + 3 harmless rewrites of a scratch copy of the visitor: translator verdict / first lemma that fails
+offlinegen-mutants: coq
+	python3 tools/offlinegen_mutants.py
+
+coq: coq/Makefile.coq
+	cd coq && timeout $(COQ_TIMEOUT) $(MAKE) -k -f Makefile.coq -j$(J)
 
 # extraction and driver are rebuilt only when a compiled theory, Extract.v or driver.ml is newer (a check that runs while another one
 # starts must not find the driver half written: it is linked under a temporary name and moved into place)
